@@ -149,17 +149,14 @@ namespace Lfn
 /-- `Vec::resize(n, 0)` -/
 def resize (l : List Nat) (n : Nat) : List Nat := l.take n ++ List.replicate (n - l.length) 0
 
-/-- `c != 0xFFFF && c != 0` negated -/
-def isPad (c : Nat) : Bool := c == 0 || c == 0xFFFF
-
-/-- the list up to and including its last non-padding unit
-    (`iter().rposition(|c| *c != 0xFFFF && *c != 0).map_or(0, |n| n + 1)` as a prefix) -/
-def stripTrailing : List Nat → List Nat
+/-- the units before the first `0x0000` (all of them if there is none):
+    `units[..units.iter().position(|c| *c == 0).unwrap_or(units.len())]` -/
+def cutAtNul : List Nat → List Nat
   | [] => []
-  | x :: xs => if (stripTrailing xs).isEmpty && isPad x then [] else x :: stripTrailing xs
+  | x :: xs => if x = 0 then [] else x :: cutAtNul xs
 
 /-- the `new_len` computed by `LongNameBuilder::truncate` -/
-def stripLen (l : List Nat) : Nat := (stripTrailing l).length
+def cutLen (l : List Nat) : Nat := (cutAtNul l).length
 
 /-- `buf[pos..pos+13].copy_from(us)` for a 13-unit `us`, unchecked -/
 def setSlice (buf : List Nat) (pos : Nat) (us : List Nat) : List Nat :=
@@ -219,16 +216,17 @@ def new (alloc : Bool) : LongNameBuilder := ⟨LfnBuf.new alloc, 0, 0⟩
 def clear (alloc : Bool) (b : LongNameBuilder) : LongNameBuilder :=
   { b with buf := b.buf.clear alloc, index := 0 }
 
-/-- `truncate`: `new_len` = position after the last unit that is neither 0 nor 0xFFFF among the LIVE units
-    `self.buf.as_ucs2_units()` (both variants; before commit 11043bc the fixed variant scanned the whole array: F18) -/
+/-- `truncate`: the name ends at the FIRST NUL unit of the LIVE units `self.buf.as_ucs2_units()` (padding follows it)
+    or fills all entries completely; trailing `0xFFFF` units are part of the name (commit 712f847; before it every
+    trailing `0x0000`/`0xFFFF` unit was stripped: F12; before 11043bc the fixed variant scanned the whole array: F18) -/
 def truncate (alloc : Bool) (b : LongNameBuilder) : LongNameBuilder :=
-  { b with buf := b.buf.setLen alloc (stripLen b.buf.asUnits) }
+  { b with buf := b.buf.setLen alloc (cutLen b.buf.asUnits) }
 
 /-- `truncate` with the bounds check of `as_ucs2_units()` (`none` = panic) -/
 def truncate? (alloc : Bool) (b : LongNameBuilder) : Option LongNameBuilder :=
   match b.buf.asUnits? with
   | none => none
-  | some u => some { b with buf := b.buf.setLen alloc (stripLen u) }
+  | some u => some { b with buf := b.buf.setLen alloc (cutLen u) }
 
 /-- `MAX_LONG_NAME_LEN` -/
 def maxNameLen : Nat := 255
